@@ -11,6 +11,9 @@ T-DIM over every method of Mapping / MappingIter and the serde impls:
   iter-protocol   MappingIter::next derives the id and the slot from the same cursor value, then advances it by one;
                   iter() starts the cursor at 0
   serde-shape     Serialize emits the first max()+1 slots; Deserialize inserts slot i under id i
+
+Added after the second and third seeding rounds:
+  grow-to-fit       Mapping::insert grows the chunk table to a length computed from the chunk index being stored
 """
 from common import *
 import q, dim
